@@ -758,6 +758,25 @@ func oracleFormatConsistency(c FmtCase) error {
 			if got := files["out.txt"]; got != written[c.Files[0].Name] {
 				return fmt.Errorf("%s: -o writes %q but -i writes %q", desc, got, written[c.Files[0].Name])
 			}
+			// the text the command prints is itself formatted: saved to a file it passes --check, and -i leaves it alone
+			pdir, err := setup([]File{{Name: "printed.sql", Content: rOut.stdout}})
+			if err != nil {
+				return fmt.Errorf("HARNESS: %v", err)
+			}
+			defer os.RemoveAll(pdir)
+			rp, err := runCmd(pdir, "", binPath, append(append([]string{"format"}, c.Flags...), "--check", "printed.sql")...)
+			if err != nil {
+				return fmt.Errorf("HARNESS: %v", err)
+			}
+			if rp.code != 0 {
+				return fmt.Errorf("%s prints %q; saved to a file, format --check with the same flags exits %d for it: %s", desc, rOut.stdout, rp.code, clip(rp.stderr))
+			}
+			if _, err := runCmd(pdir, "", binPath, append(append([]string{"format"}, c.Flags...), "-i", "printed.sql")...); err != nil {
+				return fmt.Errorf("HARNESS: %v", err)
+			}
+			if b, _ := os.ReadFile(filepath.Join(pdir, "printed.sql")); string(b) != rOut.stdout {
+				return fmt.Errorf("%s prints %q; saved to a file, format -i with the same flags rewrites it to %q", desc, rOut.stdout, string(b))
+			}
 			// stdin gives the same text
 			dir, err := setup(nil)
 			if err != nil {
@@ -821,7 +840,7 @@ func layoutSQL(rt *rapid.T, toks []sqlgen.Tok, mess bool) string {
 }
 
 func TestFormatModesConsistent(t *testing.T) {
-	hx.Rule("format_modes_consistent", "for one option set, three runs of the real binary on fresh copies of 1-3 generated files (untidy layout; some unparsable): text output == concatenation of what -i writes (newline-terminated), exit codes of text and -i agree, --check exits 0 iff -i changes nothing, -o and stdin give the same text; non-trivial = at least one file is changed by -i; distinct = flags + per-file outcome")
+	hx.Rule("format_modes_consistent", "for one option set, three runs of the real binary on fresh copies of 1-3 generated files (untidy layout; some unparsable): text output == concatenation of what -i writes (newline-terminated), exit codes of text and -i agree, --check exits 0 iff -i changes nothing, -o and stdin give the same text, and the printed text saved to a file passes --check and is left alone by -i; non-trivial = at least one file is changed by -i; distinct = flags + per-file outcome")
 	if _, err := build(); err != nil {
 		t.Fatalf("HARNESS: %v", err)
 	}
